@@ -56,7 +56,7 @@ ASSUMPTIONS = [
 REQUIRED = ["grammar_reads", "rows_compared", "comments_compared", "ignored_field_warnings",
             "extra_cols_compared", "faults_injected", "faults_raised", "bytes_faults_injected",
             "sorted_reads", "population_reads", "src_text", "src_bytes", "src_path",
-            "entry_read_swc", "entry_from_swc", "ids_beyond_2_53", "lone_cr_line_ends",
+            "entry_read_swc", "entry_from_swc", "ids_beyond_2_53", "lone_cr_line_ends", "root_without_smallest_id",
             "tap_parse_swc_raise", "tap_exit_with_exception",
             "fault_beyond_buffer"]
 FLOOR = {"quick": 1500, "thorough": 30000}
@@ -104,7 +104,8 @@ def _ws(rng):
 
 
 def gen_doc(seed: int, *, arbitrary_ids: bool = False, max_rows: int = 40, charset="utf-8",
-            request_all: bool = True, big_ids: bool = False, lone_cr: bool = False):
+            request_all: bool = True, big_ids: bool = False, lone_cr: bool = False,
+            root_not_min: bool = False):
     """Draw a table and a rendering of it. Returns a dict with rows / lines / comments."""
     rng = np.random.default_rng(seed)
     u = rng.random()
@@ -119,6 +120,11 @@ def gen_doc(seed: int, *, arbitrary_ids: bool = False, max_rows: int = 40, chars
         if big_ids:
             base = int(rng.choice([2**53 + 1, 2**60 + 7]))
         ids = [base + i for i in range(n)]
+        if root_not_min and n > 1:
+            # the root (first row) carries an id in the middle of the range; no node gets the id
+            # just below it (re-basing would map that id onto -1, the format's own root marker)
+            R = base + n + 5
+            ids = [R] + [base + i if base + i < R - 1 else base + i + 7 for i in range(1, n)]
     nextra = int(rng.integers(0, 3))
     ask = int(rng.integers(0, nextra + 1))
     if not request_all:
@@ -258,7 +264,10 @@ def check_grammar(ctx, case, tmp):
     big = bool(case.get("big_ids")) and (o["entry"] == "read_swc" or o["reset_index"])
     cr = bool(case.get("lone_cr")) and o["kind"] != "text"
     doc = gen_doc(case["seed"], max_rows=case.get("max_rows", 40),
-                  charset=_charset(case["opts"]), big_ids=big, lone_cr=cr)
+                  charset=_charset(case["opts"]), big_ids=big, lone_cr=cr,
+                  root_not_min=bool(case.get("root_not_min")))
+    if case.get("root_not_min"):
+        ctx.count("root_without_smallest_id")
     if big:
         ctx.count("ids_beyond_2_53")
     if cr:
@@ -548,7 +557,8 @@ def run(ctx):
             max_rows = int(rng.integers(400, 2000 if ctx.quick else 12000)) if big else 40
             if u < 3:
                 case = {"kind": "grammar", "seed": seed, "max_rows": max_rows,
-                        "big_ids": bool(rng.random() < 0.15), "lone_cr": bool(rng.random() < 0.15)}
+                        "big_ids": bool(rng.random() < 0.15), "lone_cr": bool(rng.random() < 0.15),
+                        "root_not_min": bool(rng.random() < 0.2)}
                 case["opts"] = _draw_opts(rng, None)
                 ctx.case(case, klass="grammar")
                 execute(ctx, case)
